@@ -32,9 +32,30 @@ fn cap_of(q: &str) -> Option<(usize, char)> {
     }
 }
 
+/// Hanging images cost ~2 M model iterations per hanging query: at most two hanging queries are kept per
+/// image, and at most `HANG_IMAGE_BUDGET` hanging images are handed to the model (all are still monitored).
+const HANG_IMAGE_BUDGET: usize = 60;
+static HANG_IMAGES: std::sync::atomic::AtomicUsize = std::sync::atomic::AtomicUsize::new(0);
+
 fn run_image(case: &Case, checked: bool, label: &str, rep: &mut Report) {
+    let prov = eg::MemProvider::new(case.img.clone(), case.fill, case.cs);
+    let mut res = Vec::new();
+    let mut hangs = 0;
+    for q in &case.queries {
+        let r = eg::run_query(&prov, q);
+        if r.body == "hang" {
+            hangs += 1;
+        }
+        res.push(r);
+        if hangs >= 2 {
+            break;
+        }
+    }
+    let mut case = case.clone();
+    case.queries.truncate(res.len());
+    let case = &case;
     let line = case.to_line(checked);
-    let (_p, res) = eg::run_case(case);
+    let over_budget = hangs > 0 && HANG_IMAGES.fetch_add(1, std::sync::atomic::Ordering::SeqCst) >= HANG_IMAGE_BUDGET;
     let mut classes: Vec<String> = Vec::new();
     for (q, r) in case.queries.iter().zip(&res) {
         let kind = q.split(':').next().unwrap();
@@ -77,7 +98,11 @@ fn run_image(case: &Case, checked: bool, label: &str, rep: &mut Report) {
     if classes.len() >= 3 {
         rep.nontrivial.insert(hex(&case.img[..case.img.len().min(512)]) + &classes.join(","));
     }
-    rep.case(line, eg::answer_line(&res));
+    if over_budget {
+        rep.hit("hanging image monitored but not handed to the model (budget)");
+    } else {
+        rep.case(line, eg::answer_line(&res));
+    }
 }
 
 fn put16(v: &mut Vec<u8>, at: usize, x: u16) {
@@ -91,6 +116,24 @@ fn put16(v: &mut Vec<u8>, at: usize, x: u16) {
 fn adversarial(rng: &mut Rng) -> Vec<(String, Vec<u8>, Fill)> {
     let mut v: Vec<(String, Vec<u8>, Fill)> = Vec::new();
     let hdr = |rng: &mut Rng| eg::gen_header(rng);
+    // the witnesses of the Lean counterexample theorems (Props/C13.lean), byte for byte
+    let sparse = |bytes: &[(usize, u8)]| -> Vec<u8> {
+        let n = bytes.iter().map(|b| b.0).max().unwrap_or(0) + 1;
+        let mut v = vec![0u8; n];
+        for (a, b) in bytes {
+            v[*a] = *b;
+        }
+        v
+    };
+    v.push(("lean-imgLenFFFF".into(), sparse(&[(128, 1), (130, 255), (131, 255)]), Fill::Zero));
+    v.push(("lean-imgSize511".into(), sparse(&[(124, 255), (125, 1)]), Fill::Zero));
+    v.push(("lean-imgFar".into(), sparse(&[(128, 1), (130, 0xbc), (131, 0x7f)]), Fill::Zero));
+    v.push(("lean-imgBigCat-mul".into(), sparse(&[(128, 30), (130, 0), (131, 0x80)]), Fill::Zero));
+    v.push(("lean-imgBigCat-add".into(), sparse(&[(128, 30), (130, 0xc0), (131, 0x7f)]), Fill::Zero));
+    v.push(("lean-imgSkip".into(), sparse(&[(128, 1), (130, 0xac), (131, 0x7f), (0xffdc, 10), (0xffde, 6), (0xffe0, 5), (0xffe1, 255)]), Fill::Zero));
+    v.push(("lean-imgReadByte".into(), sparse(&[(128, 1), (130, 0xbb), (131, 0x7f), (0xfffa, 10), (0xfffe, 5)]), Fill::Zero));
+    v.push(("lean-imgWrapToSelf".into(), sparse(&[(128, 2), (130, 254), (131, 255)]), Fill::Zero));
+    v.push(("lean-imgOk".into(), sparse(&[(128, 30), (130, 9), (134, 1), (150, 255), (151, 255)]), Fill::Zero));
     // blank / erased / zeroed EEPROMs of several sizes (issue 286 class)
     for n in [0usize, 1, 16, 127, 128, 132, 256, 2048] {
         v.push((format!("blank-ff-{n}"), vec![0xff; n], Fill::Ff));
@@ -155,8 +198,11 @@ fn adversarial(rng: &mut Rng) -> Vec<(String, Vec<u8>, Fill)> {
             put16(&mut img, 128, 0x0005);
             put16(&mut img, 130, target - 0x42);
             put16(&mut img, 2 * target as usize, ty);
-            put16(&mut img, 2 * target as usize + 2, *rng.pick(&[0u16, 1, 2]));
-            v.push((format!("category-at-{target:04x}"), img, Fill::Ff));
+            for l in [0u16, 1, 2] {
+                let mut img = img.clone();
+                put16(&mut img, 2 * target as usize + 2, l);
+                v.push((format!("category-at-{target:04x}"), img, Fill::Ff));
+            }
         }
     }
     // PDO with 255 entries of 255 bits; 65 PDOs; PDO whose entries run out
